@@ -6,7 +6,7 @@
 
    Vocabulary.  [written_chain t m] = the configs written for mock m = (package, interface,
    index of the configs entry), most specific first: configs entry, interface config, package
-   config, top level.  [mock_cfg (init_pure disc (init_pure disc t)) m] = the config mockery
+   config, top level.  [mock_cfg (init_pure rx disc (init_pure rx disc t)) m] = the config mockery
    uses for m after the two Initialize calls of a run ([C08_no_panic]).  [disc] is the result of
    sub-package discovery below `recursive` packages (C07's).  [untouched disc pkg]: pkg is not
    discovered below a recursive package.  The scalar theorem holds for every configured package;
@@ -20,9 +20,9 @@ From Mk Require Import Lib.Bytes Cfg.Json Cfg.Json_proofs Cfg.Config Cfg.Config_
 
 (* No mergeConfigs call panics below the top level built from the four sources, and a run
    performs Initialize twice. *)
-Theorem C08_no_panic : forall disc env file flags pkgs,
-  run_config disc {| t_root := new_root_config env file flags; t_pkgs := pkgs |}
-  = Ok (init_pure disc (init_pure disc {| t_root := new_root_config env file flags; t_pkgs := pkgs |})).
+Theorem C08_no_panic : forall rx disc env file flags pkgs,
+  run_config rx disc {| t_root := new_root_config env file flags; t_pkgs := pkgs |}
+  = Ok (init_pure rx disc (init_pure rx disc {| t_root := new_root_config env file flags; t_pkgs := pkgs |})).
 Proof. intros. apply run_config_ok. apply root_total. Qed.
 Print Assumptions C08_no_panic.
 
@@ -30,14 +30,14 @@ Print Assumptions C08_no_panic.
    recursive package or not: the value set at the most specific level that sets it, searching
    configs entry, interface config, package config, top level (the top level is total by
    C08_sources, so the search always ends with a value). *)
-Theorem C08_scalar : forall disc env file flags pkgs m c p,
+Theorem C08_scalar : forall rx disc env file flags pkgs m c p,
   let t := {| t_root := new_root_config env file flags; t_pkgs := pkgs |} in
   has_key (m_pkg m) pkgs = true ->
-  mock_cfg (init_pure disc (init_pure disc t)) m = Some c ->
+  mock_cfg (init_pure rx disc (init_pure rx disc t)) m = Some c ->
   c_ptr c p = first_some (map (fun x => c_ptr x p) (written_chain t m)).
 Proof.
-  intros disc env file flags pkgs m c p t Hk Hc.
-  apply (scalar_first_set_all disc t m c p); [apply root_total | exact Hk | exact Hc].
+  intros rx disc env file flags pkgs m c p t Hk Hc.
+  apply (scalar_first_set_all rx disc t m c p); [apply root_total | exact Hk | exact Hc].
 Qed.
 Print Assumptions C08_scalar.
 
@@ -64,21 +64,21 @@ Print Assumptions C08_sources_maps.
    config is what [resolve] specifies on the chain - the most specific level that has the key
    wins; where it holds a map, the maps of the less specific levels are merged in key by key, up
    to the first level that holds something else than a map there. *)
-Theorem C08_template_data : forall disc t m c path,
+Theorem C08_template_data : forall rx disc t m c path,
   untouched disc (m_pkg m) ->
-  mock_cfg (init_pure disc (init_pure disc t)) m = Some c ->
+  mock_cfg (init_pure rx disc (init_pure rx disc t)) m = Some c ->
   look path (tdj c) = resolve path (map tdj (written_chain t m)).
-Proof. intros disc t m c path Hu Hc. exact (template_data_resolve disc t m c Hu Hc path). Qed.
+Proof. intros rx disc t m c path Hu Hc. exact (template_data_resolve rx disc t m c Hu Hc path). Qed.
 Print Assumptions C08_template_data.
 
 (* When no level puts a non-map where another level has a map on the way to [path], this is
    plainly "the first level of the chain at which the path exists". *)
-Theorem C08_template_data_first_set : forall disc t m c path,
+Theorem C08_template_data_first_set : forall rx disc t m c path,
   untouched disc (m_pkg m) ->
-  mock_cfg (init_pure disc (init_pure disc t)) m = Some c ->
+  mock_cfg (init_pure rx disc (init_pure rx disc t)) m = Some c ->
   Forall (clean path) (map tdj (written_chain t m)) ->
   look path (tdj c) = first_some (map (fun x => look path (tdj x)) (written_chain t m)).
-Proof. intros disc t m c path Hu Hc. exact (template_data_first_set disc t m c Hu Hc path). Qed.
+Proof. intros rx disc t m c path Hu Hc. exact (template_data_first_set rx disc t m c Hu Hc path). Qed.
 Print Assumptions C08_template_data_first_set.
 
 (* The merge itself, for any chain of values (not only four levels). *)
@@ -87,22 +87,22 @@ Proof. exact look_eff. Qed.
 Print Assumptions C08_merge_chain.
 
 (* replace-type is inherited entry by entry with the same precedence (used by C13_levels). *)
-Theorem C08_replace_type : forall disc t m c k,
+Theorem C08_replace_type : forall rx disc t m c k,
   untouched disc (m_pkg m) ->
-  mock_cfg (init_pure disc (init_pure disc t)) m = Some c ->
+  mock_cfg (init_pure rx disc (init_pure rx disc t)) m = Some c ->
   rget k (c_rt c) = first_some (map (fun x => rget k (c_rt x)) (written_chain t m)).
-Proof. intros disc t m c k Hu Hc. exact (replace_type_first_set disc t m c Hu Hc k). Qed.
+Proof. intros rx disc t m c k Hu Hc. exact (replace_type_first_set rx disc t m c Hu Hc k). Qed.
 Print Assumptions C08_replace_type.
 
 (* No leak: the effective config of a mock is a function of its own chain.  Two trees that
    write the same chain for m - whatever sibling packages, interfaces and configs entries they
    contain - give m indistinguishable configs (same scalars, same replace-type entries, same
    value at every template-data path). *)
-Theorem C08_no_leak : forall disc t t' m c c',
+Theorem C08_no_leak : forall rx disc t t' m c c',
   untouched disc (m_pkg m) ->
   written_chain t m = written_chain t' m ->
-  mock_cfg (init_pure disc (init_pure disc t)) m = Some c ->
-  mock_cfg (init_pure disc (init_pure disc t')) m = Some c' ->
+  mock_cfg (init_pure rx disc (init_pure rx disc t)) m = Some c ->
+  mock_cfg (init_pure rx disc (init_pure rx disc t')) m = Some c' ->
   cfg_equiv c c'.
 Proof. exact no_leak. Qed.
 Print Assumptions C08_no_leak.
@@ -168,6 +168,20 @@ Proof.
 Qed.
 Print Assumptions C08_levels_mock_and_package.
 
+(* (4) sub-package exclusion is read from the recursive package: its own list if it writes one -
+   an explicitly empty list included, which excludes nothing - else the top level's; a sub-package
+   that this list excludes is left untouched by the package's recursive step. *)
+Theorem C08_levels_exclusion : forall rx disc root p pkgs parent pp sub,
+  c_esr (pc_config (init_pkg root p)) = first_some [c_esr (pc_config p); c_esr root]
+  /\ excluded rx (Some []) sub = false
+  /\ (get parent pkgs = Some pp -> excluded rx (c_esr (pc_config pp)) sub = true ->
+      get sub (rec_step rx disc pkgs parent) = get sub pkgs).
+Proof.
+  intros. split; [rewrite esr_of_package; destruct (c_esr (pc_config p)), (c_esr root); reflexivity|].
+  split; [reflexivity | apply rec_step_excluded].
+Qed.
+Print Assumptions C08_levels_exclusion.
+
 (* The hypothesis [untouched] of the map-valued theorems cannot be dropped: for a configured
    package that a recursive package also discovers, the code merges the recursive package's
    config into it (RootConfig.Initialize, second loop), so template-data (and replace-type)
@@ -177,7 +191,7 @@ Print Assumptions C08_levels_mock_and_package.
 Theorem C08_recursive_parent_is_a_level :
   exists disc t m c path,
     untouchedb disc (m_pkg m) = false /\
-    mock_cfg (init_pure disc (init_pure disc t)) m = Some c /\
+    mock_cfg (init_pure (fun _ _ => false) disc (init_pure (fun _ _ => false) disc t)) m = Some c /\
     look path (tdj c) <> resolve path (map tdj (written_chain t m)).
 Proof.
   exists [(B "m/p", [B "m/p/sub"])].
@@ -208,7 +222,7 @@ Theorem C08_recursive_parent_kind_conflict :
   let t := {| t_root := top; t_pkgs := [(B "m/p", {| pc_config := par; pc_ifaces := [] |});
                                          (B "m/p/sub", {| pc_config := sub; pc_ifaces := [] |})] |} in
   let m := {| m_pkg := B "m/p/sub"; m_iface := B "A"; m_idx := 0 |} in
-  exists c, mock_cfg (init_pure [(B "m/p", [B "m/p/sub"])] (init_pure [(B "m/p", [B "m/p/sub"])] t)) m = Some c
+  exists c, mock_cfg (init_pure (fun _ _ => false) [(B "m/p", [B "m/p/sub"])] (init_pure (fun _ _ => false) [(B "m/p", [B "m/p/sub"])] t)) m = Some c
     /\ look [B "a"; B "k4"] (tdj c) = Some (OLeaf (JNum 4))
     /\ resolve [B "a"; B "k4"] [tdj sub; tdj top; tdj par] = None
     /\ look [B "b"] (tdj c) = Some (OLeaf (JStr (B "top")))
@@ -235,7 +249,7 @@ Example C08_example :
                                                                               cfgs PDir (B "d-entry") [(B "nest", JObj [(B "e", JNum 3)])] []] |})] |});
                          (B "m/q", empty_pcfg)] |} in
   untouchedb [(B "m/q", [B "m/q/sub"])] (B "m/p") = true /\
-  match run_config [] t with
+  match run_config (fun _ _ => false) [] t with
   | Ok t2 =>
     match mock_cfg t2 {| m_pkg := B "m/p"; m_iface := B "A"; m_idx := 1 |} with
     | Some c =>
